@@ -513,15 +513,22 @@ func (w *World) CheckCleanFailure(out *Outcome, o *Obs) []Violation {
 			break
 		}
 	}
+	// faults that fired before Run returned (later ones - reload, Close, continuation - are
+	// not Run's business)
 	fired := ""
 	runnerFault := false
-	for _, f := range o.Fired {
-		if strings.HasPrefix(f, "run:") {
-			runnerFault = true
-		} else if strings.HasPrefix(f, "close:") {
+	for _, e := range evs {
+		if e.Detail != "FAULT" {
 			continue
-		} else if fired == "" {
-			fired = f
+		}
+		switch e.Kind {
+		case "run":
+			runnerFault = true
+		case "close":
+		default:
+			if fired == "" {
+				fired = e.Kind + ":" + e.Subj
+			}
 		}
 	}
 	if out.Verdict == Rejected {
@@ -549,6 +556,26 @@ func (w *World) CheckCleanFailure(out *Outcome, o *Obs) []Violation {
 		return vs
 	}
 	cfgBad := w.configDemand()
+	if af := ActiveFault(w.P); af != "" {
+		// a configuration source that cannot be loaded / decoded: clean failure demanded
+		switch {
+		case o.Panic != "":
+			vs = append(vs, v("C09", "source-fault-panic", af, fmt.Sprintf("configuration source fault %s: Run panicked instead of returning an error: %s [%s]", af, o.Panic, o.PanicStk)))
+		case !o.RunErr:
+			vs = append(vs, v("C09", "source-fault-swallowed", af, fmt.Sprintf("configuration source fault %s, yet Run returned nil", af)))
+		}
+		if ran != "" {
+			vs = append(vs, v("C09", "runner-invoked-on-failed-start", af, fmt.Sprintf("configuration source fault %s, yet runner %s was invoked", af, ran)))
+		}
+		return vs
+	}
+	for _, t := range w.P.Types {
+		for _, cf := range t.Config {
+			if cf.Validate != "" || cf.Menu == "sum" || cf.Menu == "mul" || cf.Menu == "nested" {
+				cfgBad = "open" // validation / expression outcomes are C18's business
+			}
+		}
+	}
 	switch {
 	case out.Verdict == MustFail || cfgBad == "must-fail":
 		why := out.Why
